@@ -112,9 +112,14 @@ def sources(tier, seed, ctx):
     for n, big in ([(47, True), (50, False)] if tier == 'quick' else [(47, True), (48, False), (50, False), (53, True), (60, True)]):
         srcs.append({'fn': 'square', 'n': n, 'mode': 'POW2_M1', 'big': big, 'gen': True, 'host': None})
     # a third of the little-endian calls do not pass big_endian at all (the documented default is little-endian)
-    for j, s_ in enumerate(srcs):
-        if s_.get('big') is False and j % 3 == 0:
-            s_['big'] = None
+    # - counted per entry point, so that every entry point is called without it
+    seen = {}
+    for s_ in srcs:
+        if s_.get('big') is False:
+            key = (s_['fn'], s_.get('mode'), bool(s_.get('gen')))
+            seen[key] = seen.get(key, 0) + 1
+            if seen[key] % 3 == 1:
+                s_['big'] = None
     ctx['gen_note'] = f'{len(srcs)} generator calls'
     return srcs
 
